@@ -129,3 +129,114 @@ claim('C05',
                   '(now, item) at the back; _pass_part_downstream (nested loops) removes a prefix only: each item after a True '
                   'answer for exactly that item, only if its remaining wait <= ulp(now), one level record per removal; afterwards '
                   'remaining items wait for space or for their delay.')
+
+IC = ('interface contract of neighbours (G1: a refusing give_part leaves the callee side and the part\'s history as they were; G2: an '
+      'accepting one holds exactly that item) is proved for every library class with self of that exact class and assumed of every '
+      'neighbour of unknown class through the rely conditions')
+claim('C02',
+      assumptions=[
+          A2, A4, IC,
+          'hand lemma (glue): summing the per-activation ownership posts over all activations -- every successful give_part is one '
+          '"forwarded" at the caller and one "received" at the callee -- gives #created = #inside devices + #delivered + #reported '
+          'lost for each part; sound because a nested activation never changes the slots of an object with an outer activation in '
+          'progress (rely) and there is no zero-hold cycle of pass-through devices (A5)',
+      ],
+      explanation='single-slot holders accept iff both slots are empty (operational, input open) and then hold exactly the accepted '
+                  'item; _pass_part_downstream clears the output iff a downstream answered True, stops offering at the first True; '
+                  'Buffer pops only after a True answer for exactly the head; PartProcessor._fail discards exactly the part in '
+                  'process and reports exactly it; Source counts a part exactly when a downstream took it and never beyond its '
+                  'budget (invariant produced <= max); pass-through devices / gates / groups return True iff exactly one downstream '
+                  'took the item.')
+claim('C03',
+      assumptions=[
+          A2, A4, IC,
+          'hand lemma W4 (glue): whenever no event is pending at the current instant, a set waiting-for-downstream-space flag implies '
+          'that no downstream would accept the ready item -- induction over activations from the machine-checked pieces W1 (sender '
+          'invariant / rearm posts), W2 (space_available_downstream schedules a retry now iff the flag is set), W3 (every opening '
+          'of a device notifies all upstreams) and C10 (resource waiters)',
+          'termination of a finite-horizon run (no Zeno behaviour) is NOT decided: whole-system liveness, no contract expresses it',
+      ],
+      explanation='W1: a blocked hand-over leaves the flag set (PartHandler/PartProcessor/Source) resp. flag set or timed retry '
+                  'scheduled (Buffer); W2: space_available_downstream; W3: notify after hand-over, after a sink\'s cycle, when a buffer '
+                  'has room, on unblocking input, on restore while empty, on the resource callback, on adding a connection, on raising '
+                  'a source budget; resource side: C10.')
+claim('C06',
+      assumptions=[
+          A2, A4,
+          'hand lemma (glue): operational time between acceptance and release equals the scheduled delay -- induction over the '
+          'shutdown/restore pairs in between, each shifting the paused timer by exactly its length (C07 unpause contract), a failure '
+          'cancelling every event of the machine (C13)',
+          'the FINISH_PROCESSING handler\'s precondition (operational, part in process, output free) rests on the queue-indexed hand '
+          'lemma: a live timer of an asset exists iff it has a part in process; timers are created only in _schedule_finish_cycle '
+          '(frame scan)',
+      ],
+      explanation='_schedule_finish_cycle: delay = max(0, cycle time in effect after the receive callbacks + one-shot offset), offset '
+                  'reset, exactly one FINISH_PROCESSING event at now + delay or an immediate finish; acceptance only with both slots '
+                  'free; _finish_cycle moves the part to the output and schedules the hand-over at the same instant; maintenance '
+                  'pauses, failure cancels every event of the machine (also when it is already down -- repaired defect); the source '
+                  'restarts a full cycle only after a hand-over; the sink frees its slot only in its timer.')
+claim('C08',
+      assumptions=[
+          A2, A4, IC,
+          'A3: sorted() returns a stable permutation ordered by the key (its `reverse` argument is not modelled)',
+          'wiring of a group\'s entry side is stable during a neighbour call (rely of GroupPath protects it)',
+          'Group.__init__ (iterates a set), GroupInput.notify_upstream_of_available_space, GroupPath.space_available_downstream and '
+          'PartFlowController.waiting_for_part_start_time are not under contract',
+      ],
+      explanation='offers go only to members of the configured downstream list in candidate order (sorted by waiting-since, None '
+                  'last), first True wins; gates refuse without any other call when the predicate is False; blocked inputs refuse; a '
+                  'refused hand-over removes the history entry it added and the group-stack entry it pushed; GroupOutput leaves '
+                  'through the path on top of the stack and removes exactly this group\'s entry (defect found and repaired); sink '
+                  'collects in arrival order; idle stamps (waiting-for-part-since) bookkeeping; wiring symmetry pieces of set_upstream.')
+claim('C15',
+      assumptions=[
+          A2, A4,
+          'calls of Environment.add_datapoint made by an activation are read off its ghost trace; that each such call appends exactly '
+          'one record to the right series is Environment.add_datapoint\'s own contract (series separation is its precondition, a '
+          'hand lemma from the two freshness clauses)',
+          'the sink counter is the number of leaf parts received (a batch counts all its parts by design, C17), one record per item',
+          'json export of the trace is trusted',
+      ],
+      explanation='one record with the documented tuple per occurrence: received_part, produced_part (after the finish callbacks), '
+                  'supplied_new_part, device_failure, level (last record == level), resource_update (contract of '
+                  '_record_resource_amount_update + syntactic scan that every pool write is followed by it), work-order records, '
+                  'schedule_update; step appends exactly one trace entry iff tracing.')
+claim('C16',
+      assumptions=[
+          A2,
+          'value == start + sum of changes is stated as a chain (every history entry carries previous total + its change, the value '
+          'is the last total); the sum form follows by telescoping (hand lemma)',
+          'user code does not call add_value on sources / sinks directly',
+          'Batch.value == sum of its parts and System.get_net_value_of_assets == sum over registered assets are NOT machine-checked '
+          '(they are literally `sum(...)` over the collection; the dynamic dispatch of `value` for nested batches is modelled by an '
+          'uninterpreted batch_value)',
+      ],
+      explanation='Asset invariant + add_value/add_cost/initialize posts; Source: cost tally and value move by the value the part '
+                  'had when it left (snapshot before the hand-over); Sink: value grows by the value at receipt; Maintainer charges the '
+                  'reported cost exactly once per started order.')
+
+claim('C14', level='other',
+      assumptions=['A1: CPython evaluates the subset deterministically',
+                   'the set iteration in Group.__init__ is order independent (not checked)'],
+      explanation='PARTIAL, syntactic: (a) both branches of System.simulate_multiple_times build the result in index order and '
+                  '_simulation_helper returns the fresh System it created (structure check of the real AST); (b) scan of '
+                  'simprocesd/model: the only calls into random/time/uuid/secrets/os/id/hash are random.random() in Event.__init__ '
+                  'and time.time() in System.simulate whose value reaches only print(); no default argument is a mutable object or '
+                  'a call evaluated at import.  NOT decided: split-run equivalence, independence from the asset-id offset, equality '
+                  'of in-process and worker-process results (two-run relational properties / pickling).')
+
+claim('C20',
+      assumptions=[
+          A2,
+          'an asset\'s own initialize does not register further non-transitory assets (System._initialize_assets iterates the registry)',
+          'late creation is verified as "the real constructor chain, run with the active System already initialised, raises nothing '
+          'and leaves the asset registered, initialised with the running environment and in its class-specific start state"; the '
+          'full two-run equality with early creation + initialize is not machine-checked',
+          'sensor classes: see C19',
+      ],
+      explanation='System.__init__ becomes the active instance; add_asset registers with the most recent system exactly once and '
+                  'initialises a late asset immediately exactly once; simulate raises for a replaced system (nothing changes), '
+                  'initialises the resource manager and every registered asset exactly once, in order, on the first call only; '
+                  'Asset.initialize raises on a second call; find_assets returns exactly the matching registered assets in '
+                  'registration order (ghost position maps); late creation of PartHandler, PartProcessor, Buffer, Sink, PartBatcher, '
+                  'DecisionGate, Maintainer, ActionScheduler verified (three defects repaired); Source: known finding.')
